@@ -6,6 +6,28 @@ import sys
 import traceback
 
 
+def _generic_replay(pid, path):
+    """Re-drive the single behaviour of a replay file through the real code and re-validate it."""
+    import json
+    with open(path) as f:
+        rp = json.load(f)
+    d = rp.get("detail", {})
+    print(json.dumps(rp.get("signature"), indent=1))
+    if d.get("script") is not None and "conf" in d:
+        from harness.drivers import tunerloop as D
+        from harness.validate import validate
+        conf = {k: v for k, v in d["conf"].items()}
+        run = D.run_tuner(conf, D.Script.from_json(d["script"]))
+        tr = D.to_trace(run, 1)
+        v = validate("TunerLoop_Trace", "TunerLoop_Trace.cfg", [tr])[0]
+        for e in tr["ev"]:
+            print(e)
+        print("flags raised on re-drive:", sorted(v.flags or []))
+        return 1 if rp["signature"].get("flag") in (v.flags or ()) else 0
+    print(json.dumps(d, indent=1)[:4000])
+    return 1
+
+
 def main():
     ap = argparse.ArgumentParser()
     ap.add_argument("pid")
@@ -20,6 +42,9 @@ def main():
         from harness import shim  # noqa: F401  environment shims before syne_tune imports
         mod = importlib.import_module(f"harness.props.{a.pid.lower()}")
         from harness.report import Report
+        if a.replay:
+            rc = mod.replay(a.replay) if hasattr(mod, "replay") else _generic_replay(a.pid, a.replay)
+            sys.exit(rc)
         rep = Report(a.pid, a.tier, seed)
         mod.run(rep, a.tier, seed)
         rc = rep.finish()
